@@ -258,7 +258,73 @@ fn sub_negative(input: &[u8], st: &mut Stats) -> R {
     Ok(())
 }
 
+/// type declarations, typed values and literal consumers over a tiny id pool: forward
+/// references, ids declared twice with different widths, consumers before their types
+fn sub_type_chaos(input: &[u8], st: &mut Stats) -> R {
+    let mut cs = Cs::new(input);
+    let mut w = header_words((1, 4), 16);
+    let n = 2 + cs.below(10);
+    let mut desc = vec![];
+    for _ in 0..n {
+        let id = 1 + cs.below(4) as u32;
+        let ty = 1 + cs.below(4) as u32;
+        match cs.below(8) {
+            0 | 1 => {
+                let width = [8u32, 16, 32, 64, 64, 24, 128][cs.below(7)];
+                w.extend([(4 << 16) | OP_TYPE_INT, id, width, cs.below(2) as u32]);
+                desc.push(format!("%{} = OpTypeInt {}", id, width));
+            }
+            2 => {
+                let width = [16u32, 32, 64, 64, 8][cs.below(5)];
+                w.extend([(3 << 16) | OP_TYPE_FLOAT, id, width]);
+                desc.push(format!("%{} = OpTypeFloat {}", id, width));
+            }
+            3 | 4 => {
+                let nl = 1 + cs.below(2);
+                let op = if cs.below(3) == 0 { OP_SPEC_CONSTANT } else { OP_CONSTANT };
+                let mut i = vec![op, ty, id];
+                for _ in 0..nl {
+                    i.push(cs.lit32());
+                }
+                i[0] |= (i.len() as u32) << 16;
+                w.extend(&i);
+                desc.push(format!("%{} = OpConstant %{} ({} words)", id, ty, nl));
+            }
+            5 => {
+                w.extend([(3 << 16) | 1, ty, id]);
+                desc.push(format!("%{} = OpUndef %{}", id, ty));
+            }
+            6 => {
+                // OpSwitch inside a function block
+                let ncase = cs.below(3);
+                let wide = cs.bool();
+                let mut i = vec![OP_SWITCH, id, 9];
+                for _ in 0..ncase {
+                    i.push(cs.lit32());
+                    if wide {
+                        i.push(cs.lit32());
+                    }
+                    i.push(9);
+                }
+                i[0] |= (i.len() as u32) << 16;
+                w.extend(W_FUNCTION);
+                w.extend(W_LABEL);
+                w.extend(&i);
+                w.extend(W_FUNCTION_END);
+                desc.push(format!("OpSwitch %{} ({} cases, wide={})", id, ncase, wide));
+            }
+            _ => {
+                w.extend([(3 << 16) | 71, id, 0]);
+                desc.push(format!("OpDecorate %{} RelaxedPrecision", id));
+            }
+        }
+    }
+    let bytes = words_to_bytes(&w);
+    exercise(&bytes, st, &|| desc.join("\n"))
+}
+
 pub const SUBS: &[Sub] = &[
+    Sub { name: "type-chaos", f: sub_type_chaos },
     Sub { name: "negative-sweep", f: sub_negative },
     Sub { name: "embedded", f: sub_embedded },
     Sub { name: "modules", f: sub_modules },
@@ -269,12 +335,13 @@ pub const SUBS: &[Sub] = &[
 
 pub fn run(ctx: &Ctx) {
     run_regress(ctx, SUBS);
-    drive_enum(ctx, &SUBS[0], sweep::cases().len() as u64);
-    drive_enum(ctx, &SUBS[1], golden().core.len() as u64 * 5);
-    drive_random(ctx, &SUBS[2], ctx.n(30_000, 15_000_000), 1200);
-    drive_random(ctx, &SUBS[3], ctx.n(100_000, 50_000_000), 400);
-    drive_random(ctx, &SUBS[4], ctx.n(50_000, 20_000_000), 200);
-    drive_random(ctx, &SUBS[5], ctx.n(100_000, 50_000_000), 300);
+    drive_random(ctx, &SUBS[0], ctx.n(50_000, 20_000_000), 200);
+    drive_enum(ctx, &SUBS[1], sweep::cases().len() as u64);
+    drive_enum(ctx, &SUBS[2], golden().core.len() as u64 * 5);
+    drive_random(ctx, &SUBS[3], ctx.n(30_000, 15_000_000), 1200);
+    drive_random(ctx, &SUBS[4], ctx.n(100_000, 50_000_000), 400);
+    drive_random(ctx, &SUBS[5], ctx.n(50_000, 20_000_000), 200);
+    drive_random(ctx, &SUBS[6], ctx.n(100_000, 50_000_000), 300);
     if !ctx.quick() && !ctx.failed() {
         crate::fuzzing::drive_fuzz(ctx, "bytes", 1_000_000);
         crate::fuzzing::drive_fuzz(ctx, "modules", 300_000);
